@@ -168,6 +168,10 @@ def evaluate(it):
         return ctor(classes, it[1], it[2])
     if k == "rh":
         return ctor(classes, it[1], it[2], True)
+    if k == "ctor-native":
+        # the interpreter's NATIVE string type: bytes on 2.x (what open().read(), argv, raw_input hand out there), str on 3.x
+        C = {"2": CVSS2, "3": CVSS3, "4": CVSS4}
+        return ctor(C, it[1], it[2].encode("utf-8") if PY2 else it[2])
     if k == "text":
         try:
             r = parse_cvss_from_text(it[1])
